@@ -16,6 +16,7 @@ package main
 
 import (
 	"bytes"
+	"crypto/sha256"
 	"encoding/binary"
 	"errors"
 	"fmt"
@@ -79,6 +80,15 @@ func (c *c04Counters) hold(key string) (held <-chan struct{}, release func()) {
 	return h, func() { once.Do(func() { close(r) }) }
 }
 
+// c04Key: the execution counter of a method for an argument; long arguments (the mixed-size runs)
+// are represented by their first bytes, length and digest
+func c04Key(svc int, method, a string) string {
+	if len(a) <= 1024 {
+		return fmt.Sprintf("s%d:%s:%s", svc, method, a)
+	}
+	return fmt.Sprintf("s%d:%s:%s...%d:%x", svc, method, a[:48], len(a), sha256.Sum256([]byte(a)))
+}
+
 type c04Pong struct {
 	svc int
 	cnt *c04Counters
@@ -87,14 +97,14 @@ type c04Pong struct {
 func (p *c04Pong) Activate(a bus.Activation, h pong.PingPongSignalHelper) error { return nil }
 func (p *c04Pong) OnTerminate()                                                 {}
 func (p *c04Pong) Hello(a string) (string, error) {
-	n := p.cnt.run(fmt.Sprintf("s%d:hello:%s", p.svc, a))
+	n := p.cnt.run(c04Key(p.svc, "hello", a))
 	if strings.HasPrefix(a, "ERR") {
 		return "", errors.New("refused by the method")
 	}
 	return fmt.Sprintf("re:%s#%d", a, n), nil
 }
 func (p *c04Pong) Ping(a string) error {
-	p.cnt.run(fmt.Sprintf("s%d:ping:%s", p.svc, a))
+	p.cnt.run(c04Key(p.svc, "ping", a))
 	return nil
 }
 
@@ -785,7 +795,7 @@ func (h *c04Harness) stress(res *hx.Result, rng *hx.Rng, links []*c04Link, ngor,
 					case x < 2: // a Post, written by this goroutine on the shared endpoint
 						id := uint32(0x40000000 + li*1000000 + g*10000 + i*2)
 						mu.Lock()
-						posted[fmt.Sprintf("s%d:ping:%s", svc, arg)] = id
+						posted[c04Key(int(svc), "ping", arg)] = id
 						mu.Unlock()
 						l.ep.Send(net.NewMessage(net.NewHeader(net.Post, svc, 1, 101, id), c04Str(arg)))
 					case x < 4: // a call that is cancelled at some point
@@ -841,7 +851,7 @@ func (h *c04Harness) stress(res *hx.Result, rng *hx.Rng, links []*c04Link, ngor,
 		over = ", " + links[0].kind + " transport, payload sizes mixed"
 	}
 	for _, r := range results {
-		key := fmt.Sprintf("s%d:hello:%s", r.svc, r.arg)
+		key := c04Key(int(r.svc), "hello", r.arg)
 		n := h.cnt.get(key)
 		desc := fmt.Sprintf("stress %s (%d goroutines x %d calls, %d connection(s)%s): call Hello(%q) to service %d", tag, ngor, ncalls, len(links), over, c04Abbrev(r.arg), r.svc)
 		switch {
